@@ -333,6 +333,15 @@ fn oracle(req: &Req, alpha: &Alphabet, idxs: &[u8], got: &Result<Result<Vec<Exte
             if r.is_empty() {
                 return v("accepted-empty", "accepted with an empty header list".into());
             }
+            // "of at most the requested amount": a response carrying more entries than were
+            // requested is oversized whatever the surplus entries are (the quantifier lists
+            // oversized responses); it cannot be read as a response to this request.
+            if es.len() as u64 > req.amount {
+                return v(
+                    "oversized-response-accepted",
+                    format!("a response of {} entries was accepted for amount {}", es.len(), req.amount),
+                );
+            }
             if r.len() as u64 > req.amount {
                 return v("accepted-more-than-amount", format!("{} headers accepted for amount {}", r.len(), req.amount));
             }
@@ -515,7 +524,7 @@ fn main() {
             assumptions: &[
                 "headers come from celestia_types::test_utils::ExtendedHeaderGenerator (single validator, key from thread_rng): the property does not depend on key material; VERIF_SEED only picks the flipped bit",
                 "which alphabet entries are 'individually validated headers' is decided once per entry by celestia-types' decode + validate() (not the code under test of this property, see C01-C03)",
-                "reading of the statement: it constrains what is accepted (the accepted value is a non-empty run start, start+1, .. of at most `amount` validated headers of the response) and requires clean responses to be accepted unchanged; responses that are not clean but contain a validated header for `start` (re-ordered entries, validated entries followed by junk, surplus entries) may be refused or read as such a run - the repo's own tests request_range_responds_with_unsorted_headers / .._invalid_headaer_in_the_middle pin that the client sorts and keeps the validated prefix; the classes accept:tolerated:* count them",
+                "reading of the statement: it constrains what is accepted (the accepted value is a non-empty run start, start+1, .. of at most `amount` validated headers of the response) and requires clean responses to be accepted unchanged; responses that are not clean but contain a validated header for `start` (re-ordered entries, validated entries followed by junk, surplus entries) may be refused or read as such a run, but a response with more entries than the requested amount must be refused whatever the surplus entries are - the repo's own tests request_range_responds_with_unsorted_headers / .._invalid_headaer_in_the_middle pin that the client sorts and keeps the validated prefix; the classes accept:tolerated:* count them",
                 "requests are valid ones (HeaderRequestExt::is_valid), as the handler guarantees before decode_and_verify_responses runs",
             ],
             required_classes: &["accept:clean", "reject:must*"],
